@@ -54,6 +54,63 @@ TYPENAMES = {"id_t", "rec_t", "sys_t", "int8_t", "uint8_t", "int16_t", "uint16_t
 NOT_GRAMMAR = {"add_position", "set_position", "is_type", "handle_warning"}       # callbacks the lexer / tracker make, not the grammar's actions
 
 
+# the 3.x syntax is an input format too: a model written in it and its 4.x twin must give the same document (what differs by design:
+# 4.x parses the built-in declarations first; 3.x parameters are references unless `const`)
+SYNTAX_TWINS = [
+    ("""const N 2, M2 3; int i; int j; int[0,3] r := 1; clock x; chan c; urgent chan u; broadcast chan b;
+process P(int p, p2; const q, q2, q3; clock z; chan d) {
+    int l := 0; const K 1;
+    state A { x <= 5 }, B { x < 3, x <= 4 }, C;
+    commit C; urgent B;
+    init A;
+    trans A -> B { guard i < 2, x >= 1; sync c!; assign i := 1, x := 0; },
+          B -> C { guard i == 0; }, C -> A { sync d?; }, -> B { assign l := q + q2 + q3 + K; };
+}
+process R(const a) { state S; init S; }
+Q := P(i, j, 1, 2, 3, x, c);
+system Q, R;
+""", """const int N = 2, M2 = 3; int i; int j; int[0,3] r = 1; clock x; chan c; urgent chan u; broadcast chan b;
+process P(int &p, int &p2, const int q, const int q2, const int q3, clock &z, chan &d) {
+    int l = 0; const int K = 1;
+    state A { x <= 5 }, B { x < 3 && x <= 4 }, C;
+    commit C; urgent B;
+    init A;
+    trans A -> B { guard i < 2 && x >= 1; sync c!; assign i = 1, x = 0; },
+          B -> C { guard i == 0; }, C -> A { sync d?; }, -> B { assign l = q + q2 + q3 + K; };
+}
+process R(const int a) { state S; init S; }
+Q = P(i, j, 1, 2, 3, x, c);
+system Q, R;
+"""),
+]
+
+
+def syntax_twins(c):
+    jobs = []
+    for k, (old, new) in enumerate(SYNTAX_TWINS):
+        jobs.append({"id": "o%d" % k, "entry": "xta", "text": old, "newxta": False})
+        jobs.append({"id": "n%d" % k, "entry": "xta", "text": new})
+    res = vf.run_jobs(jobs, c.run_dir, variant="plain", name="twins")
+    bv, bt = set(docgen.builtin_vars(c)), set(docgen.BUILTIN_TYPES)
+    n = 0
+    for k, (old, new) in enumerate(SYNTAX_TWINS):
+        ro, rn = res["o%d" % k], res["n%d" % k]
+        if ro.get("main", {}).get("outcome") != "return" or rn.get("main", {}).get("outcome") != "return":
+            c.finding("c05:syntax-twin:outcome", "the 3.x and 4.x spellings of one model end differently: %s / %s" % (ro.get("main"), rn.get("main")), {"old": old, "new": new})
+            continue
+        do, dn = canon(ro["dump"]["doc"]), canon(rn["dump"]["doc"])
+        g = dn["globals"]
+        g["vars"] = [v for v in g["vars"] if v["name"] not in bv]
+        g["typedefs"] = [v for v in g["typedefs"] if v["name"] not in bt]
+        g["symbols"] = [s for s in g["symbols"] if s not in bv and s not in bt]
+        n += 1
+        d = docgen.diff(do, dn)
+        if d:
+            c.finding("c05:syntax-twin:%s" % docgen.diff_class(d[0]), "the 3.x and the 4.x spelling of one model give different documents at %s: 3.x %s, 4.x %s" % (d[0][0], json.dumps(d[0][1])[:160], json.dumps(d[0][2])[:160]),
+                      {"old": old, "new": new, "differences": d})
+    return n
+
+
 def spec_level(c, models, quick, rnd):
     """MirrorXTA.tla: the .xta token string of a sample of models through LR.tla (extracted automaton) and Builder.tla must give
     Expected(M); the callbacks LR.tla emits are compared with those recorded from the real parser on the same text"""
@@ -144,7 +201,7 @@ def run(tier):
         if d:
             c.finding("c05:%s:%s" % (kind, docgen.diff_class(d[0])),
                       "documents differ at %s: xml %s, xta %s" % (d[0][0], json.dumps(d[0][1])[:200], json.dumps(d[0][2])[:200]), dict(rep, differences=d))
-    nspec = spec_level(c, models, quick, rnd)
+    nspec = spec_level(c, models, quick, rnd) + syntax_twins(c)
     c.cov["traces_validated_against_impl"] = ncmp + nspec
     c.cov["evaluations"] = 2 * ncmp + nspec
     c.cov["distinct_nontrivial"] = sum(1 for k, m, f in cases if any(t["edges"] for t in m["templs"]))
